@@ -146,8 +146,33 @@ def run(prop: str, tier: str, seed: int) -> int:
                     n_bad += 1
                     viol += 1
                     R.violation(bad, {"sequence": a["seq"], "example_text": example_text(a["seq"])}, True)
+    # coerce_to_number against the contract the enumeration relies on
+    try:
+        from pyvc.parsesym import make_interp as _mk, prove_coerce
+
+        for ob in prove_coerce(_mk(REPO)):
+            n_obl += 1
+            if ob.get("undecided"):
+                R.undecided.append(f"{ob['clause']}: {ob['detail']}")
+                n_bad += 1
+            elif not ob["ok"]:
+                n_bad += 1
+                R.violation(f"obligation {prop}/{ob['clause']} failed: {ob['detail'][:200]}", {"obligation": ob}, False)
+    except Exception as e:  # noqa: BLE001
+        R.engine_errors.append(f"coerce_to_number proof crashed: {e!r}")
     extra: Dict[str, Any] = {}
     if prop == "C10":
+        from .c10_deductive import run_all as c10_deductive
+
+        dd = c10_deductive(REPO)
+        for e in dd["errors"]:
+            (R.engine_errors if e.startswith("engine-error") else R.undecided).append(e)
+        extra_ded = {"obligations": len(dd["obligations"]), "discharged": sum(1 for o in dd["obligations"] if o["ok"])}
+        for ob in dd["obligations"]:
+            n_obl += 1
+            if not ob["ok"]:
+                n_bad += 1
+                R.violation(f"obligation C10/{ob['clause']} failed: {ob['detail'][:240]}", {"obligation": ob}, False)
         for ob in sticky_state_analysis(REPO):
             n_obl += 1
             if not ob["ok"]:
@@ -195,8 +220,13 @@ def run(prop: str, tier: str, seed: int) -> int:
         "from_cache": d.get("from_cache"),
         "samples": [{"sequence": ["Constant", "Variable", "Exponent", "Constant"], "text": "4x^2", "result": "Multiply(c0, Power(v1, c3)) = grammar tree"}],
         "bounded": {k: v for k, v in extra.items() if k != "failures"},
+        "unbounded_part": (
+            "C10 only: explicit raises are documented exceptions (scan); next/eat under the stream invariant; parse_factors list safety by loop invariants; "
+            "parse_function lookup; progress (every loop iteration / non-descending call consumes a token) - for token lists of ANY length"
+            if prop == "C10" else "none (see C10/C11 for totality)"
+        ),
     }
-    R.assumptions = ["token-count bound stated above; nesting depth bounded accordingly"]
+    R.assumptions = ["token-count bound stated above for the enumeration; the unbounded clauses of C10 rest on the stream invariant, the loop invariants of parse_factors and a static progress analysis"]
     return R.finish()
 
 
